@@ -1900,19 +1900,22 @@ impl Machine {
     }
 
     pub fn execute_main(&mut self) -> ReturnCode {
-        // A stateful function called at global scope uses the global state storage, which is
-        // otherwise sized only by the first dsp call.
+        // The global initialiser has no cells in dsp's state layout. A stateful function called
+        // at global scope runs on a storage of its own (sized from the initialiser's skeleton):
+        // on the global storage it would leave its state in the first cells of dsp, and a hot swap,
+        // which runs the initialiser again, would overwrite the migrated state of dsp.
         let main_state_size = self
             .prog
             .global_fn_table
             .first()
             .map_or(0, |(_, f)| f.state_skeleton.total_size() as usize);
-        if self.global_states.rawdata.len() < main_state_size {
-            self.global_states.resize(main_state_size);
-        }
+        let dsp_states = std::mem::take(&mut self.global_states);
+        self.global_states.resize(main_state_size);
         // 0 is always base pointer to the main function
         self.base_pointer += 1;
-        self.execute(0, None)
+        let rc = self.execute(0, None);
+        self.global_states = dsp_states;
+        rc
     }
 }
 
